@@ -18,12 +18,18 @@
     * "the variables" of the multipart laws is the *ideal tree* `idealVars`: every pydantic
       model, wherever it sits, stands for its `model_dump(by_alias=True, exclude_unset=True)`.
 
+  Besides the client object, the objects `execute` is GIVEN are state that later calls see (one
+  headers dict / variables dict / Upload handed to several calls, on one client or on several of the
+  four): section 3b states the frame for them on the reference-level model `executeH`
+  (Model/BaseClientHeap.lean) — every call leaves every caller-owned dict as it was, so sequences and
+  interleavings of calls that SHARE argument objects send, per call, the request of the call run alone.
+
   Two findings make the property false as written (`C11_full_false`); outside their triggers it is
   proved (`C11_partial`):
     C11-F1 `trigContentTypeCase`        a caller Content-Type header in another spelling does not win
     C11-F2 `trigUploadInModelBelowDict` an Upload inside a model below a raw dict is not extracted
 -/
-import AriadneModel.Proofs.BaseClient
+import AriadneModel.Proofs.BaseClientHeap
 
 set_option linter.unusedSimpArgs false
 set_option linter.unusedVariables false
@@ -402,6 +408,219 @@ theorem sequential_calls_independent (cl : Client) (calls : List Call) :
     | cons c rest ih => intro pre; rw [List.foldl_cons, hstep, ih]; simp
   simpa using this []
 
+/-! ## 3b. the caller's argument objects: sequences and interleavings of calls that share them -/
+
+/-- The header merge of `_execute_json` on a store of dict objects, for EVERY store and every caller
+    reference: it succeeds iff the reference names an object, every object that existed before the
+    call is what it was (the merge writes only into the dict it allocated itself), and the dict
+    handed to httpx is `{"Content-Type": "application/json"}` updated with the caller's dict. -/
+theorem merge_headers_writes_only_own_object (s : Store) (caller : Option Nat) :
+    match mergeHeadersS s caller with
+    | some (s', a) =>
+        s'.take s.length = s ∧ (∀ i, i < s.length → s'[i]? = s[i]?) ∧ a = s.length ∧
+        ∃ d, callerDict s caller = some d ∧
+          s'[a]? = some (dictUpdate [("Content-Type", "application/json")] (d.getD []))
+    | none => callerDict s caller = none := by
+  cases caller with
+  | none =>
+    rw [mergeHeadersS_none]
+    refine ⟨by simp, ?_, rfl, none, rfl, by simp [dictUpdate]⟩
+    intro i hi; rw [List.getElem?_append_left hi]
+  | some a =>
+    cases hd : s[a]? with
+    | none => rw [mergeHeadersS_dangling s a hd]; simp [callerDict, hd]
+    | some d =>
+      rw [mergeHeadersS_some s a d hd]
+      refine ⟨by simp, ?_, rfl, some d, by simp [callerDict, hd], by simp⟩
+      intro i hi; rw [List.getElem?_append_left hi]
+
+/-- The theorem above is about the code, not about the shape of the model: the rewrite
+    `headers = kwargs.get("headers", {}); headers.setdefault("Content-Type", "application/json")`
+    (write at the caller's address) does not have the frame property. -/
+def mergeHeadersInPlace (s : Store) (caller : Nat) : Option (Store × Nat) :=
+  match s[caller]? with
+  | some d =>
+    some (s.set caller (if (headerKeys d).contains "Content-Type" then d else d ++ [("Content-Type", "application/json")]), caller)
+  | none => none
+
+theorem inplace_merge_breaks_frame :
+    ∃ (s s' : Store) (a : Nat), mergeHeadersInPlace s 0 = some (s', a) ∧ s'.take s.length ≠ s :=
+  ⟨[[("Authorization", "Bearer t")]], _, _, rfl, by decide⟩
+
+/-- `execute_args_frame`: `execute` on references.  Whatever objects the heap holds and whichever of
+    them the call names, the client object and EVERY caller-owned dict are afterwards what they were,
+    and what is sent is the request of the value-level call (the contents at call time). -/
+theorem execute_args_frame (cl : Client) (h : Heap) (c : HCall) (call : Call) (hc : h.call? c = some call) :
+    executeH cl h c = .ok cl h (req cl call) := executeH_eq cl h c call hc
+
+/-- …and a reference that names no object is the only way to get no outcome. -/
+theorem executeH_illFormed_iff (cl : Client) (h : Heap) (c : HCall) :
+    (∃ cl' h' r, executeH cl h c = .ok cl' h' r) ↔ (h.call? c).isSome = true := by
+  cases hc : h.call? c with
+  | none => simp [executeH_illFormed cl h c hc]
+  | some call => simp [executeH_eq cl h c call hc]
+
+/-- `sequence_shared_args`: any number of calls one after the other, each on its own client (any of
+    the four kinds, tracer or not), all drawing their `variables` / `headers=` objects from ONE heap in
+    any sharing pattern: the heap at the end is the heap at the start, and the i-th call sent exactly
+    the request it sends when it is the only call ever made with these objects. -/
+theorem sequence_shared_args (h : Heap) (steps : List (Client × HCall)) :
+    (runSeqH h steps).1 = h ∧
+    (runSeqH h steps).2.length = steps.length ∧
+    ∀ (i : Nat) cl c, steps[i]? = some (cl, c) →
+      (runSeqH h steps).2[i]? = some ((h.call? c).map (req cl)) := by
+  rw [runSeqH_eq]
+  have hmap : ∀ steps : List (Client × HCall),
+      derefSteps h steps = steps.map (fun st => (h.call? st.2).map (req st.1)) := by
+    intro steps
+    induction steps with
+    | nil => rfl
+    | cons st rest ih => obtain ⟨cl, c⟩ := st; simp only [derefSteps, ih, List.map_cons]; rfl
+  refine ⟨rfl, by simp [hmap], ?_⟩
+  intro i cl c hi
+  simp [hmap, List.getElem?_map, hi]
+
+/-- A call in flight whose arguments are references. -/
+inductive PhaseH where
+  | todo (c : HCall)
+  | prepared (r : Request)
+  | done (r : Request)
+
+structure WorldH where
+  client : Client
+  heap : Heap                  -- the caller's objects, shared by all tasks
+  tasks : List PhaseH
+  wire : List Request
+
+/-- one scheduler step: task `i` advances by one phase; preparing a request runs `executeH` on the
+    CURRENT client and the CURRENT heap (whatever earlier steps of other tasks left there) -/
+def stepH (w : WorldH) (i : Nat) : WorldH :=
+  match w.tasks[i]? with
+  | some (.todo c) =>
+    match executeH w.client w.heap c with
+    | .ok cl' h' r => { client := cl', heap := h', tasks := w.tasks.set i (.prepared r), wire := w.wire }
+    | .illFormed => w
+  | some (.prepared r) => { w with tasks := w.tasks.set i (.done r), wire := w.wire ++ [r] }
+  | _ => w
+
+def runScheduleH (w : WorldH) (sched : List Nat) : WorldH := sched.foldl stepH w
+
+def startH (cl : Client) (h : Heap) (calls : List HCall) : WorldH :=
+  { client := cl, heap := h, tasks := calls.map .todo, wire := [] }
+
+def SentAlone (cl : Client) (h : Heap) (c : HCall) (r : Request) : Prop :=
+  ∃ call, h.call? c = some call ∧ r = req cl call
+
+def PhaseOkH (cl : Client) (h : Heap) (c : HCall) : PhaseH → Prop
+  | .todo c' => c' = c
+  | .prepared r => SentAlone cl h c r
+  | .done r => SentAlone cl h c r
+
+def InvH (cl : Client) (h : Heap) (calls : List HCall) (w : WorldH) : Prop :=
+  w.client = cl ∧ w.heap = h ∧ w.tasks.length = calls.length ∧
+  (∀ (i : Nat) c ph, calls[i]? = some c → w.tasks[i]? = some ph → PhaseOkH cl h c ph) ∧
+  (∀ r ∈ w.wire, ∃ c ∈ calls, SentAlone cl h c r)
+
+theorem invH_start (cl : Client) (h : Heap) (calls : List HCall) : InvH cl h calls (startH cl h calls) := by
+  refine ⟨rfl, rfl, by simp [startH], ?_, by simp [startH]⟩
+  intro i c ph hc hp
+  simp only [startH, List.getElem?_map, hc, Option.map_some, Option.some.injEq] at hp
+  subst hp; rfl
+
+theorem invH_step (cl : Client) (h : Heap) (calls : List HCall) (w : WorldH) (i : Nat)
+    (hinv : InvH cl h calls w) : InvH cl h calls (stepH w i) := by
+  obtain ⟨h1, hh, h2, h3, h4⟩ := hinv
+  unfold stepH
+  cases hp : w.tasks[i]? with
+  | none => exact ⟨h1, hh, h2, h3, h4⟩
+  | some ph =>
+    have hi : i < calls.length := by
+      have := (List.getElem?_eq_some_iff.mp hp).1; omega
+    have hc : calls[i]? = some calls[i] := List.getElem?_eq_getElem hi
+    have hok := h3 i calls[i] ph hc hp
+    cases ph with
+    | done r => exact ⟨h1, hh, h2, h3, h4⟩
+    | todo c' =>
+      simp only [PhaseOkH] at hok
+      subst hok
+      cases hcall : h.call? calls[i] with
+      | none =>
+        simp only [h1, hh, executeH_illFormed cl h _ hcall]
+        exact ⟨h1, hh, h2, h3, h4⟩
+      | some call =>
+        simp only [h1, hh, executeH_eq cl h _ call hcall]
+        refine ⟨rfl, rfl, by simp [h2], ?_, h4⟩
+        intro j c ph hcj hpj
+        by_cases hij : i = j
+        · subst hij
+          have hlt : i < w.tasks.length := by omega
+          simp only [List.getElem?_set_self hlt, Option.some.injEq] at hpj
+          subst hpj
+          rw [hc] at hcj; cases hcj
+          exact ⟨call, hcall, rfl⟩
+        · simp only [List.getElem?_set_ne hij] at hpj
+          exact h3 j c ph hcj hpj
+    | prepared r =>
+      simp only [PhaseOkH] at hok
+      refine ⟨h1, hh, by simp [h2], ?_, ?_⟩
+      · intro j c ph hcj hpj
+        by_cases hij : i = j
+        · subst hij
+          have hlt : i < w.tasks.length := by omega
+          simp only [List.getElem?_set_self hlt, Option.some.injEq] at hpj
+          subst hpj
+          rw [hc] at hcj; cases hcj
+          simpa [PhaseOkH] using hok
+        · simp only [List.getElem?_set_ne hij] at hpj
+          exact h3 j c ph hcj hpj
+      · intro r' hr'
+        simp only [List.mem_append, List.mem_singleton] at hr'
+        rcases hr' with hr' | hr'
+        · exact h4 r' hr'
+        · exact ⟨calls[i], List.getElem_mem hi, hr' ▸ hok⟩
+
+/-- `interleave_commutes_shared_args`: for EVERY schedule of the steps of any number of concurrent
+    calls on one client whose `variables` / `headers=` arguments are references into one heap (shared
+    in any pattern) — the client object and every object of the heap are unchanged, each call that got
+    as far as preparing or sending prepared/sent exactly the request it sends when run alone on the
+    untouched heap, and the transport saw nothing else. -/
+theorem interleave_commutes_shared_args (cl : Client) (h : Heap) (calls : List HCall) (sched : List Nat) :
+    let w := runScheduleH (startH cl h calls) sched
+    w.client = cl ∧ w.heap = h ∧
+    (∀ (i : Nat) c r, calls[i]? = some c →
+      (w.tasks[i]? = some (PhaseH.done r) ∨ w.tasks[i]? = some (PhaseH.prepared r)) → SentAlone cl h c r) ∧
+    (∀ r ∈ w.wire, ∃ c ∈ calls, SentAlone cl h c r) := by
+  have hinv : ∀ (sched : List Nat) (w : WorldH), InvH cl h calls w → InvH cl h calls (runScheduleH w sched) := by
+    intro sched
+    induction sched with
+    | nil => intro w hw; exact hw
+    | cons i rest ih => intro w hw; exact ih (stepH w i) (invH_step cl h calls w i hw)
+  obtain ⟨h1, hh, _, h3, h4⟩ := hinv sched _ (invH_start cl h calls)
+  refine ⟨h1, hh, ?_, h4⟩
+  intro i c r hc hp
+  rcases hp with hp | hp
+  · simpa [PhaseOkH] using h3 i c _ hc hp
+  · simpa [PhaseOkH] using h3 i c _ hc hp
+
+/-- non-vacuity: one headers dict (auth token) and one variables dict, a JSON call and an upload call
+    on two different clients and a retry of the first, all sharing them -/
+def sampleHeap : Heap :=
+  { hdrs := [[("Authorization", "Bearer t")]],
+    vars := [[("n", .num 1 0)], [("file", .upload 0), ("again", .list [.upload 0])]] }
+
+def sampleSteps : List (Client × HCall) :=
+  [ ({ kind := .sync, url := "http://verif.test/graphql", tracer := false },
+     { query := "query P { p }", opName := some "P", variables := some 0, headers := some 0, kwargs := [] }),
+    ({ kind := .asyncOT, url := "http://verif.test/graphql", tracer := true },
+     { query := "mutation U { u }", opName := some "U", variables := some 1, headers := some 0, kwargs := [] }),
+    ({ kind := .sync, url := "http://verif.test/graphql", tracer := false },
+     { query := "query P { p }", opName := some "P", variables := some 0, headers := some 0, kwargs := [] }) ]
+
+example : wfSteps sampleHeap sampleSteps = true := by decide
+example : ((runSeqH sampleHeap sampleSteps).2.map fun r => r.map fun r => (isJson r, isMultipart r)) =
+    [some (true, false), some (false, true), some (true, false)] := by decide
+example : (runSeqH sampleHeap sampleSteps).1.hdrs = sampleHeap.hdrs := by decide
+
 /-! ## 4. the property as written, its two counterexamples, and the proved region -/
 
 /-- The property for one call.  `T` is the variables tree the property speaks about (models stand
@@ -549,6 +768,15 @@ theorem C11_partial (cl : Client) (c : Call) (hv : validCall c = true) (hs : Sup
       exact pathsOf_collect "variables" e.id _
     · simp only [entries, processVariables_eq, ids_collect, hpos]
     · simp only [entries, processVariables_eq, ids_collect]; exact firstOcc_nodup _
+
+/-- C11 for calls on references: outside the two finding triggers every call leaves the client and the
+    whole argument heap untouched and sends a request for which the property holds — so the statement
+    carries over to every sequence / schedule of calls sharing argument objects
+    (`sequence_shared_args`, `interleave_commutes_shared_args`). -/
+theorem C11_partial_shared_args (cl : Client) (h : Heap) (c : HCall) (call : Call) (hc : h.call? c = some call)
+    (hv : validCall call = true) (hs : Supported_11 call) :
+    executeH cl h c = .ok cl h (req cl call) ∧ Holds cl call :=
+  ⟨execute_args_frame cl h c call hc, C11_partial cl call hv hs⟩
 
 /-- non-vacuity: a shared Upload at three paths plus one inside a dumped model, caller headers, timeout -/
 def sampleCall : Call :=
